@@ -235,6 +235,19 @@ impl Unifiable {
                     }
                 }
 
+                // If the other term is a variable whose bindings lead back to
+                // this variable, the two are already the same. Binding this one
+                // to the other would create a cycle, so nothing is bound.
+                let mut term = other;
+                while let Unifiable::LogicVar{id: other_id, name: _} = term {
+                    if *other_id == id { return Some(Rc::clone(ss)); }
+                    if *other_id >= length_src { break; }
+                    match &ss[*other_id] {
+                        Some(bound_to) => { term = &*bound_to; },
+                        None => { break; },
+                    }
+                }
+
                 let mut length_dst = length_src;
                 if id >= length_dst { length_dst = id + 1; }
 
